@@ -150,18 +150,18 @@ def api_level(chk, tier):
                     b = G.glob(enc(p), flags=fl, root_dir=os.fsencode(t.root))
                     if [os.fsencode(x) for x in a] != b:
                         chk.violation(dict(obligation='C18.bounded.glob_bytes_root', tree=tname, pattern=str(p), flags=fl), f'glob({p!r}) on {tname}: str {a[:5]} vs bytes {b[:5]}', None)
-            for fp in ['*.txt', '*', '!*.txt', 'a|!b*', '']:
+            for fp in ['*.txt', '*', '!*.txt', 'a|!b*', '', None]:
                 for fl in (WM.RV, WM.RV | WM.HD, WM.RV | WM.FP | WM.G):
                     n += 1
                     chk.case(key=('tree-wcmatch', tname, fp, fl))
                     wa = WM.WcMatch(t.root, fp, flags=fl)
-                    wb = WM.WcMatch(os.fsencode(t.root), fp.encode(), flags=fl)
+                    wb = WM.WcMatch(os.fsencode(t.root), fp.encode() if fp is not None else None, flags=fl)
                     a, b = wa.match(), wb.match()
                     if [os.fsencode(x) for x in a] != b or wa.get_skipped() != wb.get_skipped():
                         chk.violation(dict(obligation='C18.bounded.wcmatch_bytes_root', tree=tname, pattern=fp, flags=fl),
                                       f'WcMatch({fp!r}, flags={fl:#x}) on {tname}: str {len(a)} files / skipped {wa.get_skipped()}, bytes {len(b)} / {wb.get_skipped()}',
                                       f"import sys, os; sys.path.insert(0, {REPO!r}); sys.path.insert(0, '/verif')\nfrom wcmatch import wcmatch\nfrom vlib.harness import trees\n"
-                                      f"with trees.Tree(trees.NAMED[{tname!r}]) as t:\n    print(wcmatch.WcMatch(t.root, {fp!r}, flags={fl}).match())\n    print(wcmatch.WcMatch(os.fsencode(t.root), {fp.encode()!r}, flags={fl}).match())\nsys.exit(1)\n")
+                                      f"with trees.Tree(trees.NAMED[{tname!r}]) as t:\n    print(wcmatch.WcMatch(t.root, {fp!r}, flags={fl}).match())\n    print(wcmatch.WcMatch(os.fsencode(t.root), {(fp.encode() if fp is not None else None)!r}, flags={fl}).match())\nsys.exit(1)\n")
     return n
 
 
